@@ -176,6 +176,13 @@ func (s *Server) decide(transport string, conn int64, raw []byte) *action {
 	if hook != nil {
 		hook(ql, &d)
 	}
+	if d.Kind == "tcs" { // truncated over UDP, silent on every other transport (the TCP retry gets nothing)
+		if transport == "udp" {
+			d.Kind = "tc"
+		} else {
+			d.Kind = "silent"
+		}
+	}
 	ql.Kind = d.Kind
 	a := &action{kind: d.Kind, http: d.HTTP, delay: time.Duration(d.Delay) * time.Millisecond, ql: ql, fin: d.Fin}
 	switch d.Kind {
